@@ -43,32 +43,18 @@ def run(rep):
     h = ('tf', elem, 0)
     rep.check(not st[5], 'C08.once', 'single-pass', where, 'struct items come from a flattened iteration', ok_detail='plain pass over module.types')
     # ---- filter formula ---------------------------------------------------------------------------------------------------------
-    conds = []
-    for c in st[4]:
-        conds.extend(c[1] if c[0] == 'and' else [c])
-    struct_only = [c for c in conds if only_struct_cond(c, elem)]
-    formula = [c for c in conds if c not in struct_only]
-    rep.check(len(struct_only) == 1, 'C08.struct-only', 'struct-only', where, f'items are not restricted to TypeInner::Struct by exactly one condition ({[E.show(c, maxdepth=5) for c in conds]})',
-              ok_detail='filter_map keeps TypeInner::Struct only')
-    rep.check(len(formula) == 1, 'C08.filter-formula', 'one-predicate', where, f'expected one selection predicate, found {len(formula)}', ok_detail='one predicate')
-    if len(formula) == 1:
-        pred = formula[0]
-        atoms = {}
-
-        def classify(x):
-            k = classify_any(ogp, x, modP, h)
-            if k:
-                atoms.setdefault(k, x)
-                return False
-            if x[0] == 'mcall' and x[2] == 'contains' and x[3] == [h]:
-                atoms.setdefault('C', x)
-                return False
-        E.walk(pred, classify)
-        rep.check(set(atoms) == {'A', 'B', 'C'}, 'C08.filter-formula', 'atoms', where,
+    # the whole condition under which an item is produced for a type (filters, match guards, early returns of helper predicates), judged
+    # semantically: its atoms are recognised (S: the type is a struct, A/B by behaviour on model entry points, C: membership in the closure
+    # set) and the 16-row truth table must be S and ((not A and B) or C)
+    pred, atoms = predicate_and_atoms(ogp, st, modP, elem, h)
+    if True:
+        rep.check('S' in atoms, 'C08.struct-only', 'struct-only', where, f'items are not restricted to TypeInner::Struct ({E.show(pred, maxdepth=5)})',
+                  ok_detail='items only for TypeInner::Struct')
+        rep.check({'A', 'B', 'C'} <= set(atoms), 'C08.filter-formula', 'atoms', where,
                   f'cannot recognise the three atoms of the selection predicate (found {sorted(atoms)}) in {E.show(pred, maxdepth=6)}: A = "some entry point returns exactly this type", '
                   f'B = "some entry point takes an argument of exactly this type" (classified by evaluating the extracted conditions on model entry points), C = membership in the closure set',
                   ok_detail='A: result type == h, B: some argument type == h, C: closure contains h')
-        if set(atoms) == {'A', 'B', 'C'}:
+        if set(atoms) == {'S', 'A', 'B', 'C'}:
             other = []
 
             def find_other(x):
@@ -76,27 +62,27 @@ def run(rep):
                     return False
                 if x[0] in ('t',) and x[1] not in atoms.values() and x[1][0] not in ('any', 'mcall'):
                     other.append(x)
-                if x[0] in ('eq', 'is') :
+                if x[0] in ('eq', 'is'):
                     other.append(x)
             E.walk(pred, find_other)
-            rep.check(not other, 'C08.filter-formula', 'no-other-atom', where, f'the predicate also depends on {[E.show(o, maxdepth=5) for o in other][:3]}', ok_detail='only A, B, C')
-            for va, vb, vc in itertools.product([False, True], repeat=3):
-                def leaf(t, va=va, vb=vb, vc=vc):
-                    if t == atoms['A']:
-                        return (va,)
-                    if t == atoms['B']:
-                        return (vb,)
-                    if t == atoms['C']:
-                        return (vc,)
+            rep.check(not other, 'C08.filter-formula', 'no-other-atom', where, f'the predicate also depends on {[E.show(o, maxdepth=5) for o in other][:3]}', ok_detail='only S, A, B, C')
+            for vs, va, vb, vc in itertools.product([True, False], [False, True], [False, True], [False, True]):
+                def leaf(t, vs=vs, va=va, vb=vb, vc=vc):
+                    for k_, v_ in (('S', vs), ('A', va), ('B', vb), ('C', vc)):
+                        if t == atoms[k_]:
+                            return (v_,)
                     return None
+                key = f'row:A={int(va)},B={int(vb)},C={int(vc)}' + ('' if vs else ',not-a-struct')
                 try:
                     got = Eval(leaf, lenient=False).truth(pred)
                 except (Unbound, Diverge) as u:
-                    rep.bad('C08.filter-formula', f'row:{int(va)}{int(vb)}{int(vc)}', where, f'cannot evaluate the predicate: {u}', undecided=True)
+                    if not vs:
+                        continue        # for a non-struct the remaining conditions may be undefined (bindings of the Struct pattern)
+                    rep.bad('C08.filter-formula', key, where, f'cannot evaluate the predicate: {u}', undecided=True)
                     continue
-                exp = (not va and vb) or vc
-                rep.check(got == exp, 'C08.filter-formula', f'row:A={int(va)},B={int(vb)},C={int(vc)}', where,
-                          f'a type with [entry result={va}, entry argument={vb}, reachable from a variable={vc}] is {"emitted" if got else "not emitted"}; '
+                exp = vs and ((not va and vb) or vc)
+                rep.check(got == exp, 'C08.filter-formula', key, where,
+                          f'a type with [struct={vs}, entry result={va}, entry argument={vb}, reachable from a variable={vc}] is {"emitted" if got else "not emitted"}; '
                           f'the property requires {"emission" if exp else "no emission"}', ok_detail=f'emitted={got}')
         # the set C consults is the closure set
         if 'C' in atoms:
@@ -214,8 +200,28 @@ def classify_any(ogp, term, modP, h):
     return None
 
 
+def predicate_and_atoms(ogp, st, modP, elem, h):
+    pred = ('true',) if not st[4] else st[4][0] if len(st[4]) == 1 else ('and', list(st[4]))
+    atoms = {}
+    inner = ('f', ('tf', elem, 1), 'inner')
+
+    def classify(x):
+        k = classify_any(ogp, x, modP, h)
+        if k:
+            atoms.setdefault(k, x)
+            return False
+        if x[0] == 'mcall' and x[2] == 'contains' and x[3] == [h]:
+            atoms.setdefault('C', x)
+            return False
+        if x[0] == 'is' and x[1] == inner and x[2].endswith('TypeInner::Struct'):
+            atoms.setdefault('S', x)
+            return False
+    E.walk(pred, classify)
+    return pred, atoms
+
+
 def selection_predicate(ogp):
-    """(predicate term, {'A','B','C' -> atom term}) of the struct emission filter, or (None, None)"""
+    """(condition under which a struct item is emitted, {'S','A','B','C' -> atom term}) or (None, None)"""
     hits = []
     for q, v in ogp.summaries.items():
         stars = []
@@ -231,26 +237,10 @@ def selection_predicate(ogp):
     modP = st[1][1]
     elem = ('elem', st[2], st[1])
     h = ('tf', elem, 0)
-    cs = []
-    for c in st[4]:
-        cs.extend(c[1] if c[0] == 'and' else [c])
-    formula = [c for c in cs if not only_struct_cond(c, elem)]
-    if len(formula) != 1:
+    pred, atoms = predicate_and_atoms(ogp, st, modP, elem, h)
+    if set(atoms) != {'S', 'A', 'B', 'C'}:
         return None, None
-    atoms = {}
-
-    def classify(x):
-        k = classify_any(ogp, x, modP, h)
-        if k:
-            atoms.setdefault(k, x)
-            return False
-        if x[0] == 'mcall' and x[2] == 'contains' and x[3] == [h]:
-            atoms.setdefault('C', x)
-            return False
-    E.walk(formula[0], classify)
-    if set(atoms) != {'A', 'B', 'C'}:
-        return None, None
-    return formula[0], atoms
+    return pred, atoms
 
 
 def closure_discipline(ogp, rep, rule, driver_q, set_term, modP, where):
